@@ -1,10 +1,12 @@
 """C17 — unfinished or truncated BW64 files are never misread.
 
-Correspondence: the unclosed buffer after every writer call (bytes and the reader's verdict) and every proper
-prefix of finalised files, real Bw64Writer/Bw64Reader vs the Lean byte models.  Search: the two predicates of
-the property on the real code alone.
+Correspondence: the unclosed buffer after every writer call (bytes and the reader's verdict; every prefix of some of
+them), every proper prefix of finalised files, and crafted byte strings around a `data` header that holds the
+0xFFFFFFFF placeholder, real Bw64Writer/Bw64Reader vs the Lean byte models.  Search: the two predicates of the property
+on the real code alone, and never-closed sparse files of 4 GiB and more (`big_unclosed_probe`).
 """
 import multiprocessing
+import struct
 
 import numpy as np
 
@@ -14,6 +16,117 @@ from .c09 import (real_write, real_read, canon_real, parse_read_answer, write_li
                   effective_chunks, mk_chna, mk_case, CHNA_OPTS, CHUNK_OPTS, FRAME_OPTS, _vrepr, split_write_answer)
 
 MAX_LEN = 600
+
+
+def big_unclosed_probe(ctx):
+    """Unfinished plain-RIFF files with 2^32 - 1 or more data bytes, on the REAL code, as sparse files on disk (the
+    writer's own header, never closed; the data is a hole of zeros, i.e. digital silence written in any number of
+    write calls).  The placeholder 0xFFFFFFFF in the data header then describes a chunk that ends at or inside the
+    file, which is where `C17_unclosed` needed its bound.  The property says: rejected with an error."""
+    import os, shutil, tempfile, warnings
+    from ear.fileio.bw64 import Bw64Reader, Bw64Writer
+    from ear.fileio.bw64.chunks import FormatInfoChunk
+    d = tempfile.mkdtemp(prefix="c17big_")
+    try:
+        for bits, ch in ((24, 1), (16, 1), (16, 2), (32, 3)):
+            for n in (2 ** 32 - 1, 2 ** 32, 2 ** 32 + 2, 2 ** 32 + 6 * 4096):
+                n -= n % (bits // 8 * ch) if n != 2 ** 32 - 1 else 0
+                path = os.path.join(d, "u.wav")
+                with open(path, "w+b") as f:
+                    Bw64Writer(f, FormatInfoChunk(formatTag=1, channelCount=ch, sampleRate=48000, bitsPerSample=bits))
+                    f.flush()
+                    hdr = f.tell()
+                    f.truncate(hdr + n)
+                ctx.count("big-unclosed:probes")
+                inp = dict(bits=bits, channels=ch, header_bytes=hdr, data_bytes=n, never_closed=True,
+                           how="Bw64Writer(file, fmt) without close(); file.truncate(header + data_bytes)")
+                try:
+                    with warnings.catch_warnings(record=True) as ws:
+                        warnings.simplefilter("always")
+                        with open(path, "rb") as g:
+                            r = Bw64Reader(g)
+                            frames = len(r)
+                    ctx.hit("unfinished file accepted", inp,
+                            dict(frames=frames, warnings=[str(w.message) for w in ws]),
+                            ["unclosed-accepted", "unclosed-4gib-placeholder"])
+                except (ValueError, RuntimeError):
+                    ctx.count("big-unclosed:rejected")
+                os.remove(path)
+    finally:
+        shutil.rmtree(d, ignore_errors=True)
+
+
+def _chunk(cid, body, size=None, pad=True):
+    return cid + struct.pack("<I", len(body) if size is None else size) + body + (b"\0" if pad and len(body) & 1 else b"")
+
+
+def crafted_placeholder_files(rng):
+    """Small hand-laid byte strings around the `data` header whose size field is 0xFFFFFFFF (the branch added to
+    `_read_chunk_header` by 61d37f4), for model-vs-code comparison: [(label, bytes, expected kind or None)].
+    The implied end of such a chunk is 4 GiB away, so every small file is cut *before* it (at / after the implied end
+    is `big_unclosed_probe`, real code only); the at/after/before family is run with small size fields next to it,
+    so that the neighbouring branches of the chunk walk are compared on the same layouts."""
+    out = []
+    FF = b"\xff\xff\xff\xff"
+    junk = _chunk(b"JUNK", bytes(28))
+
+    def riff(body, size=None, ff=b"RIFF"):
+        return ff + (FF if size is None else struct.pack("<I", size)) + b"WAVE" + body
+
+    for bits, ch in ((16, 1), (24, 1), (16, 2), (32, 3)):
+        ba = ch * bits // 8
+        fmt = _chunk(b"fmt ", struct.pack("<HHIIHH", 1, ch, 48000, 48000 * ba, ba, bits))
+        t = "%d/%d" % (bits, ch)
+        pres = (("fmt", fmt), ("junk+fmt", junk + fmt), ("junk+fmt+axml-odd", junk + fmt + _chunk(b"axml", b"<a>")),
+                ("fmt+bext-even", fmt + _chunk(b"bext", b"abcd")), ("no-fmt", junk))
+        frames3 = bytes(rng.randrange(256) for _ in range(3 * ba))
+        rests = (("nothing", b""), ("1-byte", b"\x01"), ("1-frame", frames3[:ba]),
+                 ("3-frames+pad+late-axml", frames3 + (b"\0" if len(frames3) & 1 else b"") + _chunk(b"axml", b"<x/>")),
+                 ("random", bytes(rng.randrange(256) for _ in range(rng.randrange(2, 40)))))
+        for pn, pre in pres:
+            for rn, rest in rests:
+                body = pre + b"data" + FF + rest
+                # RIFF size field: the writer's own placeholder, or the true size
+                out.append(("placeholder:%s:%s:%s" % (t, pn, rn), riff(body, None if len(out) % 2 else 4 + len(body)),
+                            "dataPlaceholder"))
+        pre = junk + fmt
+        # the placeholder header itself cut short: no data chunk is seen
+        whole = riff(pre + b"data" + FF)
+        for k in range(1, 9):
+            out.append(("placeholder-header-cut:%s:-%d" % (t, k), whole[:len(whole) - k], "missingChunk"))
+        # neighbouring size fields: not the placeholder, the chunk ends after the end of the file
+        for n in (0xFFFFFFFE, 0xFFFFFFFD, 0x80000000, 0xFFFFFF00):
+            out.append(("near-placeholder:%s:%#x" % (t, n), riff(pre + _chunk(b"data", frames3, size=n, pad=False)), "chunkEnd"))
+        # small size fields n with the file cut before / at / after the implied end
+        for n in (2 * ba, 2 * ba + 1, 3 * ba):
+            for dl, what in ((-1, "before"), (0, "at"), (1, "after-1"), (2, "after-2")):
+                rest = (frames3 + bytes(8))[:n + dl]
+                out.append(("small-size:%s:n=%d:%s" % (t, n, what), riff(pre + b"data" + struct.pack("<I", n) + rest), None))
+        # 0xFFFFFFFF in the size field of other chunk ids: the test is for b'data' only
+        for cid in (b"axml", b"JUNK", b"DATA", b"dat ", b"data"[::-1]):
+            out.append(("ffffffff-in-%s:%s" % (cid.decode(), t), riff(pre + cid + FF + frames3), "chunkEnd"))
+        # a complete data chunk first, then a second data header with the placeholder
+        out.append(("second-data-placeholder:%s" % t, riff(pre + _chunk(b"data", frames3) + b"data" + FF + frames3),
+                    "dataPlaceholder"))
+        # an invalid id before it is reported first; a missing fmt chunk is not (the walk comes first)
+        out.append(("bad-id-first:%s" % t, riff(pre + b"a\0\0\0" + struct.pack("<I", 0) + b"data" + FF), "badId"))
+        # RF64/BW64 with a ds64 chunk: the field is ignored, the size comes from ds64 -- the branch is not taken
+        for ff in (b"BW64", b"RF64"):
+            for dsz, want in ((len(frames3), "ok"), (len(frames3) + 2, "chunkEnd"), (0xFFFFFFFF, "chunkEnd")):
+                ds64 = _chunk(b"ds64", struct.pack("<QQQI", 0, dsz, 0, 0))
+                tail = frames3 + (b"\0" if len(frames3) & 1 else b"")
+                out.append(("ds64:%s:%s:dataSize=%d" % (ff.decode(), t, dsz), riff(ds64 + fmt + b"data" + FF + tail, ff=ff), want))
+        # the same bytes labelled RIFF: ds64 is an ordinary chunk, nothing corrects the size, the branch is taken
+        ds64 = _chunk(b"ds64", struct.pack("<QQQI", 0, len(frames3), 0, 0))
+        out.append(("ds64-relabelled-RIFF:%s" % t, riff(ds64 + fmt + b"data" + FF + frames3 + (b"\0" if len(frames3) & 1 else b"")),
+                    "dataPlaceholder"))
+    # finalised forced-BW64 files from the real writer, relabelled RIFF
+    for i in range(6):
+        case = mk_case(rng, [16, 24, 32][i % 3], 1 + i % 4, FRAME_OPTS[i % 6], rng.choice(CHNA_OPTS), rng.choice(CHUNK_OPTS),
+                       rng.choice(CHUNK_OPTS), True, small=True)
+        data, _ = real_write(case)
+        out.append(("written-bw64-relabelled-RIFF:%d" % i, b"RIFF" + data[4:], "dataPlaceholder"))
+    return out
 
 
 def unclosed_predicate(snap):
@@ -87,8 +200,8 @@ def _trunc_worker(args):
 
 
 THEOREMS = (
-    "unclosedFile_layout", "readChunks_chunkEnd", "C17_unclosed",
-    "readChunks_continue", "readChunks_dataPad", "unclosed_walk_without_bound", "unclosed_at_limit_accepted",
+    "unclosedFile_layout", "readChunkHeader_placeholder", "readChunks_placeholder", "riff_placeholder_rejected",
+    "C17_unclosed", "unclosed_rejected_any_size", "riff_placeholder_prefix_rejected", "C17_unclosed_prefix",
     "take_encAll", "walk_prefix", "prefix_lateC", "trunc_body", "readHead_riff_short", "readHead_bw64_short",
     "closedFile_written", "C17_truncation",
 )
@@ -101,17 +214,18 @@ class C17(Spec):
     theorems = tuple("Earverif.Bw64." + t for t in THEOREMS)
     trusted_base = c09.C09.trusted_base
     assumptions = c09.C09.assumptions + (
-        "unfinished files hold fewer than 2^32 - 1 data bytes. EVERYTHING from 2^32 - 1 upwards is outside C17_unclosed: "
-        "with exactly 2^32 - 1 the placeholder size 0xFFFFFFFF is the true size and the file is accepted with the "
-        "missing-pad-byte warning whenever the block alignment divides 2^32 - 1 (theorem unclosed_at_limit_accepted); with "
-        "2^32 or more the placeholder chunk ends inside the file and the chunk walk carries on parsing sample bytes as "
-        "chunk headers (theorem unclosed_walk_without_bound) -- the verdict then depends on the sample bytes",
+        "C17_unclosed has no bound on the amount of data any more (any history, any number of data bytes, forceBw64 either "
+        "way): since commit 61d37f4 the reader rejects the 0xFFFFFFFF data size placeholder of a plain RIFF file outright. "
+        "Its remaining hypotheses are the writer's own struct.pack limits on the constructor chunks (ChnaOK / BytesOK), "
+        "without which the real constructor raises and leaves no such buffer",
     )
     rule = (
         "crash points: the buffer after construction and after every write/setter call of a generated history; "
         "truncation: every offset 0..len-1 of every generated finalised file of at most 600 bytes (bit depth x "
         "channels x frame class x chunk presence/parity/placement x forceBw64, cycling through all combinations); "
-        "a case is one (history, crash point) or (file, offset); distinct by the bytes fed to the reader"
+        "crafted: hand-laid plain-RIFF / RF64 / BW64 byte strings around a data header holding 0xFFFFFFFF (4 formats x "
+        "chunk prefixes x what follows, header cut short, neighbouring size fields, other chunk ids, ds64 present); "
+        "a case is one (history, crash point), (file, offset) or crafted file; distinct by the bytes fed to the reader"
     )
 
     def _unclosed(self, ctx, cases, driver):
@@ -156,6 +270,21 @@ class C17(Spec):
             bad = unclosed_predicate(snap)
             if bad:
                 ctx.hit(bad[0], dict(case=case_repr(case), after_ops=n, file=snap.hex()), bad[1], bad[2])
+        # unfinished AND truncated (theorem C17_unclosed_prefix): every prefix of some of the unclosed buffers, model vs code
+        if driver:
+            some = [snap for i, (_, _, snap) in enumerate(metas) if i % 25 == 0 and len(snap) <= MAX_LEN][:40 if ctx.quick else 400]
+            outs = driver.run(["trunc " + snap.hex() for snap in some])
+            for snap, out in zip(some, outs):
+                models = [parse_read_answer(a) for a in out.split(" | ")]
+                for k in range(len(snap)):
+                    r = canon_real(real_read(snap[:k]))
+                    ctx.case(("unclosed-prefix", snap[:k]), True)
+                    ctx.count("unclosed-prefix:verdict:" + (r[1] if r[0] == "err" else "accepted"))
+                    if k >= len(models) or models[k] != r:
+                        ctx.disagree("Bw64Reader on a prefix of an unclosed buffer vs Earverif.Bw64.readFile",
+                                     dict(file=snap.hex(), cut=k), models[k] if k < len(models) else None, r)
+                    else:
+                        ctx.validated()
 
     def _truncations(self, ctx, cases, driver, procs=1):
         files = []
@@ -202,8 +331,32 @@ class C17(Spec):
                 k, b = bad
                 ctx.hit(b[0], dict(case=case_repr(case), file=data.hex(), cut=k), b[1], b[2])
 
+    def _crafted(self, ctx, driver):
+        files = crafted_placeholder_files(ctx.rng)
+        outs = driver.run(["read " + val(d) for _, d, _ in files]) if driver else [None] * len(files)
+        for (label, data, want), out in zip(files, outs):
+            r = real_read(data)
+            got = "ok" if r[0] == "ok" else r[1]
+            fam = label.split(":")[0]
+            ctx.count("crafted:%s:%s" % (fam, got + ("+warning" if r[0] == "ok" and r[1]["warns"] else "")))
+            ctx.case(("crafted", data), True,
+                     sample=dict(kind="crafted", label=label, file_len=len(data), verdict=str(canon_real(r))[:160])
+                     if fam != "placeholder" or label.endswith(("nothing", "1-frame")) else None)
+            if want is not None and got != want:
+                # the family is laid out for a known verdict; anything else means the reader changed (the comparison
+                # with the model below decides whether that is a disagreement)
+                ctx.count("crafted:UNEXPECTED:%s" % fam)
+            if driver:
+                m = parse_read_answer(out)
+                if m != canon_real(r):
+                    ctx.disagree("Bw64Reader on crafted file (%s) vs Earverif.Bw64.readFile" % label,
+                                 dict(file=data.hex()), m, canon_real(r))
+                else:
+                    ctx.validated()
+
     def correspond(self, ctx):
         driver = Driver("c09driver", "Earverif.Driver.C09")
+        self._crafted(ctx, driver)
         cases = small_cases(ctx.rng, 40 if ctx.quick else 2000)
         self._truncations(ctx, cases, driver, procs=1 if ctx.quick else 12)
         ucases = c09.grid_cases(ctx.rng, 100 if ctx.quick else 3000)
@@ -212,6 +365,7 @@ class C17(Spec):
         self._unclosed(ctx, ucases, driver)
 
     def search(self, ctx, deep):
+        big_unclosed_probe(ctx)
         if not deep:
             return
         # real code alone: more files, all offsets; more crash points
@@ -224,28 +378,42 @@ SPEC = C17()
 
 REGISTRY = dict(
     text="FULL: Lean theorems about the byte-level models of Bw64Writer/Bw64Reader (same models as C09): "
-    "Earverif.Bw64.C17_unclosed — the buffer of a writer that was never closed, after any history of write/setter calls, "
-    "any constructor or pending chunks, fewer than 2^32-1 data bytes, is rejected (chunk ends after the end of the file: "
-    "the data header still holds the 0xFFFFFFFF placeholder); Earverif.Bw64.C17_truncation — for every finalised file in "
+    "Earverif.Bw64.C17_unclosed -- the buffer of a writer that was never closed, after any history of write/setter calls, "
+    "any constructor or pending chunks, forceBw64 either way and ANY amount of data (no size bound), is rejected with "
+    "'data chunk size has not been set; the file was not closed properly': the data header still holds the 0xFFFFFFFF "
+    "placeholder, which _read_chunk_header refuses in a plain RIFF file (an unclosed buffer is always plain RIFF: only close() "
+    "rewrites the header). It is an instance of riff_placeholder_rejected: RIFF/WAVE header + any well-formed chunks + "
+    "'data' + 0xFFFFFFFF + any bytes whatsoever is rejected. unclosed_rejected_any_size restates it at >= 2^32 - 1 data bytes, "
+    "the former excluded point. C17_unclosed_prefix (beyond the property text): every prefix of an unclosed buffer is rejected "
+    "too (struct.error / chunk end / required chunk missing / data size not set, by where the cut falls). "
+    "Earverif.Bw64.C17_truncation -- for every finalised file in "
     "C09's quantifier and every cut position k < length, readFile (file.take k) is an error or succeeds with the same "
     "format, the same frame count, exactly the same sample bytes and each of chna/axml/bext absent or identical "
-    "(TruncOK). Proof by the layout lemma (closedFile_written), the prefix decomposition take_encAll and the chunk-walk "
+    "(TruncOK); the data header of a finalised RIFF file never holds the placeholder (close() chooses BW64 unless the RIFF "
+    "size, which exceeds the data size by at least 72, is < 2^32), in a BW64 file it does and the size comes from ds64. "
+    "Proof by the layout lemma (closedFile_written), the prefix decomposition take_encAll and the chunk-walk "
     "lemma walk_prefix (EOF inside a header, error inside a body or pad, data chunk lacking only its pad byte accepted "
     "with a warning). The models are tied to the code on every run: unclosed buffer bytes and reader verdict after "
-    "construction and after every call of generated histories, and every truncation offset of generated finalised files "
-    "<= 600 bytes (quick 40 files, thorough 2000 files + 600 more on the real code alone), error kinds and parsed fields "
-    "compared; the two predicates of the property run on the real code for every case.",
+    "construction and after every call of generated histories (and every prefix of every 25th such buffer), every truncation offset of generated finalised files "
+    "<= 600 bytes (quick 40 files, thorough 2000 files + 600 more on the real code alone), and ~230 crafted plain-RIFF / "
+    "RF64 / BW64 byte strings around a data header holding 0xFFFFFFFF (what follows it, header cut short, neighbouring size "
+    "fields, small size fields cut before/at/after the implied end, other chunk ids, a second data chunk, ds64 present), "
+    "error kinds and parsed fields compared; the two predicates of the property run on the real code for every case; "
+    "big_unclosed_probe runs the real reader on 16 never-closed sparse files with 2^32 - 1 .. 2^32 + 24576 data bytes "
+    "(placeholder chunk ending at / inside the file) on every run.",
     note="Trusted: as C09 (Lean kernel, hand transliteration + correspondence, BytesIO semantics as modelled; sample "
-    "encoding is C16's model, run inside the writer model for every second crash-point history). EXCLUDED POINT of "
-    "C17_unclosed: unfinished files with 2^32 - 1 OR MORE data bytes (not only exactly 2^32 - 1). Stated as theorems about the "
-    "model for any history with that much data (the data stays a variable; no 4 GiB list is built): "
-    "unclosed_walk_without_bound -- at exactly 2^32 - 1 bytes the chunk walk succeeds with the missing-pad warning, at >= 2^32 "
-    "bytes the placeholder data chunk ends inside the file and the walk continues at offset dpos + 8 + 2^32, i.e. it parses "
-    "sample bytes as chunk headers; unclosed_at_limit_accepted -- at exactly 2^32 - 1 bytes with a block alignment dividing "
-    "2^32 - 1 (e.g. 24-bit mono) the unfinished file is ACCEPTED (all frames, one warning). Neither is exercised on the real "
-    "code (4 GiB buffers). A cut that leaves the data chunk complete except for its pad byte is accepted with the 'missing "
-    "padding byte' warning, by design of the reader.",
+    "encoding is C16's model, run inside the writer model for every second crash-point history). DEFECT FOUND BY THIS CHECK "
+    "AND REPAIRED (commit 61d37f4 in /repo): the reader had no test for the placeholder and relied on the placeholder chunk "
+    "ending after the end of the file, so an unfinished plain-RIFF file with 2^32 - 1 data bytes was accepted (missing-pad "
+    "warning only; e.g. 24-bit mono) and with >= 2^32 bytes sample bytes were parsed as chunk headers; C17_unclosed then "
+    "carried the hypothesis 'fewer than 2^32 - 1 data bytes' and the excluded point was stated as theorems "
+    "(unclosed_walk_without_bound, unclosed_at_limit_accepted, now gone with the model's new branch). Reverting the fix makes "
+    "the check report VIOLATION with the sparse-file input (tag unclosed-4gib-placeholder) and a model/code disagreement on "
+    "every unclosed buffer. Files of 4 GiB are compared between model and code only through the theorem (the data is a "
+    "variable there) and on the real code through sparse files; the Lean driver is never fed 4 GiB. A cut that leaves the "
+    "data chunk complete except for its pad byte is accepted with the 'missing padding byte' warning, by design of the reader.",
     technique="Lean 4 proof about byte-level writer/reader models + differential correspondence with the real "
-    "Bw64Writer/Bw64Reader over all crash points and truncation offsets + search on the real code",
+    "Bw64Writer/Bw64Reader over all crash points, truncation offsets and crafted placeholder files + sparse-file search on "
+    "the real code",
     design_ref="DESIGN.md section 4, C17",
 )
